@@ -202,8 +202,10 @@ def ts_stream(ctx, n):
             st = sorted(set(rng.sample(pool, rng.choice([1, 2, 3]))))
             if rng.random() < 0.2:
                 st.append(5.0)       # beyond the end of the run: never applied
-            series.append({'dev': dev, 'rows': [[t, round(0.3 + 0.1 * i + 0.05 * j, 3)] for i, t in enumerate(st)],
-                           'u': 0 if rng.random() < 0.12 else 1})
+            rows = [[t, round(0.3 + 0.1 * i + 0.05 * j, 3)] for i, t in enumerate(st)]
+            if len(rows) > 1 and rng.random() < 0.4:
+                rng.shuffle(rows)        # a data sheet whose rows were entered out of chronological order
+            series.append({'dev': dev, 'rows': rows, 'u': 0 if rng.random() < 0.12 else 1})
         cut = round(rng.uniform(0.4, 2.2), rng.choice([1, 2]))
         d = os.path.join(tmp, 'j%d' % k)
         os.makedirs(d)
@@ -237,7 +239,7 @@ def ts_stream(ctx, n):
             # step that lands on its stamp); at the end of a run the rows with stamp <= t have been applied
             def want(t, strict):
                 v = r['p0'][di]
-                for ts_, p_ in rows:
+                for ts_, p_ in sorted(rows):
                     if ts_ < t or (not strict and ts_ == t):
                         v = p_
                 return v
